@@ -594,9 +594,9 @@ Proof.
     destruct (check_master n3) as [[|]|k]; [| |discriminate].
     + destruct (is_master n3); [sc_fin H|].
       destruct (master_state n3) as [[]|];
-        try (destruct (select_master n3) as [r|k] eqn:E4; [|discriminate]; simpl in H; inversion H; subst;
-             apply SM; reflexivity).
-      sc_fin H.
+        first [ destruct (select_master n3) as [r|k] eqn:E4; [|discriminate]; simpl in H; inversion H; subst;
+                apply SM; reflexivity
+              | sc_fin H ].
     + destruct (select_master n3) as [r|k] eqn:E4; [|discriminate]; simpl in H; inversion H; subst.
       apply SM; reflexivity.
   - (* DISTRIBUTION *)
@@ -985,6 +985,30 @@ Qed.
 Definition WFI (n : node) : Prop :=
   NoDup (akeys (n_insts n)) /\ inst_state n (n_me n) <> Some ISOLATED.
 
+(* boolean form, for drivers and examples *)
+Fixpoint nodup_b (l : list Z) : bool :=
+  match l with [] => true | x :: r => negb (zmem x r) && nodup_b r end.
+Definition wfi_b (n : node) : bool :=
+  nodup_b (akeys (n_insts n))
+  && negb (match inst_state n (n_me n) with Some ISOLATED => true | _ => false end).
+
+Lemma nodup_b_NoDup : forall l, nodup_b l = true <-> NoDup l.
+Proof.
+  induction l as [|x r IH]; simpl; split; intro H; try constructor.
+  - apply andb_prop in H. destruct H as [H1 H2]. apply negb_true_iff in H1. apply zmem_not_In. exact H1.
+  - apply IH. apply andb_prop in H. tauto.
+  - inversion H as [|y ys N ND]; subst. apply andb_true_intro. split; [|apply IH; exact ND].
+    apply negb_true_iff. apply zmem_not_In. exact N.
+Qed.
+
+Lemma wfi_b_WFI : forall n, wfi_b n = true <-> WFI n.
+Proof.
+  intros n. unfold wfi_b, WFI. rewrite andb_true_iff, nodup_b_NoDup, negb_true_iff.
+  split; intros [H1 H2]; (split; [exact H1|]).
+  - intro X. rewrite X in H2. discriminate.
+  - destruct (inst_state n (n_me n)) as [[]|]; try reflexivity. exfalso. apply H2. reflexivity.
+Qed.
+
 (* ---------- bridges between the node and the observation rows ---------- *)
 Definition ist_row (kv : Z * ist) : Z * Z * Z * Z * Z :=
   (fst kv, icode (is_state (snd kv)), is_remote_cnt (snd kv), is_local_cnt (snd kv), is_checking_time (snd kv)).
@@ -1257,21 +1281,12 @@ Proof.
 Qed.
 
 (* ---------- B3: the handshake fences ---------- *)
-(* Hypothesis of B3: the handshake of the local instance with itself never answers NOT_AUTHORIZED / INCONSISTENT
-   (the local instance is never ISOLATED in its own view, and its strategies equal themselves). Without it the
-   statement is false: Context.invalidate puts the local instance to STOPPED, not ISOLATED
-   (see auth_rules_needs_auth_sane below). *)
-Definition auth_sane (n : node) (e : event) : bool :=
-  match e with
-  | Auth og (A_NOT_AUTHORIZED | A_INCONSISTENT) _ _ =>
-      match ev_resolved e with Some j => negb (j =? n_me n) | None => true end
-  | _ => true
-  end.
-
-Theorem auth_rules : forall n e n' outs, WFI n -> auth_sane n e = true -> step n e = Ok (n', outs) ->
-  c13_auth e (init_ist n) (init_ist n') = true.
+(* (c13_auth takes the local identifier: a NOT_AUTHORIZED / INCONSISTENT answer about the local instance itself
+   puts it to STOPPED, never to ISOLATED — Context.invalidate.) *)
+Theorem auth_rules : forall n e n' outs, WFI n -> step n e = Ok (n', outs) ->
+  c13_auth (n_me n) e (init_ist n) (init_ist n') = true.
 Proof.
-  intros n e n' outs W AS H. pose proof (step_LR _ _ _ _ W H) as [[A [B [C D]]] _].
+  intros n e n' outs W H. pose proof (step_LR _ _ _ _ W H) as [[A [B [C D]]] _].
   destruct e as [cnt now orcs|og cnt now|og st dg m insts now orcs|pl|og a ts now
                 |og info now|og now|strat forced now orcs|now orcs|now orcs|m now orcs]; try reflexivity.
   unfold c13_auth. destruct (og_addr_ok og) eqn:AO; [|reflexivity].
@@ -1286,15 +1301,12 @@ Proof.
   - rewrite Z.eqb_refl in R. simpl in R. unfold is_checking in R.
     destruct (istate_eqb (is_state s) CHECKING && (is_checking_time s <? ts)).
     + subst s'. rewrite ws_state. unfold auth_target.
-      assert (NM : a = A_NOT_AUTHORIZED \/ a = A_INCONSISTENT -> (j =? n_me n) = false).
-      { intros X. unfold auth_sane, ev_resolved in AS. rewrite AO, OR in AS.
-        destruct X; subst a; apply negb_true_iff in AS; exact AS. }
-      destruct a; try (rewrite NM by auto); vm_compute; reflexivity.
+      destruct a; try destruct (j =? n_me n); vm_compute; reflexivity.
     + subst s'. apply Z.eqb_refl.
 Qed.
 
 (* ---------- B4: detection (completeness, accuracy, fencing) ---------- *)
-(* Hypothesis of B4: the sequence counter of the local TICK does not go backwards (SupvisorsTimes.update: "stealth
+(* Premise of B4: the sequence counter of the local TICK does not go backwards (SupvisorsTimes.update: "stealth
    restart ... only for remote, cannot happen with local"). Without it the accuracy clause is false for the local
    instance: the model (as the code) resets its local tag to 0 and declares itself FAILED
    (see detection_needs_tick_sane below). *)
@@ -1359,19 +1371,25 @@ Lemma c07_detection_body : forall me inact af e before after,
              match ist_state j after with None => false | Some s' => detect_body me inact af e j s c s' end end) before.
 Proof. reflexivity. Qed.
 
-Lemma SR_detect : forall n e j s s', tick_sane n e = true -> aget j (n_insts n) = Some s -> SR n e j s s' ->
+Lemma fsmP_detect : forall strict me af j s s' x, fsmP strict me af j s s' ->
+  (negb (icode (is_state s) =? 3) || (icode (is_state s') =? 3))
+  && ((icode (is_state s) =? 5) || negb (icode (is_state s') =? 5) || af || x) = true.
+Proof. intros strict me af j s s' x [_ [_ [_ H]]]. eapply fsm_detect. exact H. Qed.
+
+Lemma SR_detect : forall n e j s s', (j = n_me n -> tick_sane n e = true) -> aget j (n_insts n) = Some s ->
+  SR n e j s s' ->
   detect_body (n_me n) (o_inactivity (n_opts n)) (o_auto_fence (n_opts n)) e j
               (icode (is_state s)) (is_local_cnt s) (icode (is_state s')) = true.
 Proof.
   intros n e j s s' TS Hs H.
   destruct e as [cnt now orcs|og cnt now|og st dg m insts now orcs|pl|og a ts now
                 |og info now|og now|strat forced now orcs|now orcs|now orcs|m now orcs];
-    try (destruct H as [_ [_ [_ H]]]; unfold detect_body; eapply fsm_detect; exact H).
+    try (unfold detect_body; eapply fsmP_detect; exact H).
   - (* LocalTick *)
     apply SR_local_tick in H. destruct H as [H _]. apply lt_detect in H. unfold detect_body.
     assert (E : lt_local_cnt (n_me n) j s cnt = if j =? n_me n then cnt else is_local_cnt s).
-    { unfold lt_local_cnt. destruct (j =? n_me n) eqn:Ej; [|reflexivity]. apply Z.eqb_eq in Ej. subst j.
-      simpl in TS. unfold local_cnt in TS. rewrite Hs in TS. apply Z.leb_le in TS.
+    { unfold lt_local_cnt. destruct (j =? n_me n) eqn:Ej; [|reflexivity]. apply Z.eqb_eq in Ej.
+      specialize (TS Ej). subst j. simpl in TS. unfold local_cnt in TS. rewrite Hs in TS. apply Z.leb_le in TS.
       destruct (cnt <? is_remote_cnt s) eqn:X; [|reflexivity]. apply Z.ltb_lt in X. lia. }
     rewrite E in H. exact H.
   - (* PeerTick *)
@@ -1411,5 +1429,566 @@ Proof.
   intros n e n' outs W TS H. pose proof (step_LR _ _ _ _ W H) as [[A [B [C D]]] _].
   destruct W as [ND NI]. rewrite c07_detection_body. apply forallb_init_ist; [exact ND|].
   intros j s Hs. rewrite ist_state_init. destruct (D _ _ Hs) as [s' [Hs' R]]. rewrite Hs'.
-  eapply SR_detect; eassumption.
+  eapply SR_detect; try eassumption. intros _. exact TS.
 Qed.
+
+(* ====================================================================== *)
+(* Whole histories                                                         *)
+(* ====================================================================== *)
+
+(* the node reached after a history (the fold of step) *)
+Fixpoint run_state (n : node) (evs : list event) : result node :=
+  match evs with
+  | [] => Ok n
+  | e :: r => match step n e with Ok (n', _) => run_state n' r | Crash k => Crash k end
+  end.
+
+(* a boolean hypothesis on (state before the event, event), checked along the run *)
+Fixpoint run_all (h : node -> event -> bool) (n : node) (evs : list event) : bool :=
+  match evs with
+  | [] => true
+  | e :: r => h n e && match step n e with Ok (n', _) => run_all h n' r | Crash _ => true end
+  end.
+
+Lemma step_fixed : forall n e n' outs, WFI n -> step n e = Ok (n', outs) ->
+  n_me n' = n_me n /\ n_opts n' = n_opts n.
+Proof.
+  intros n e n' outs W H. pose proof (step_LR _ _ _ _ W H) as [[A [B _]] _]. split; assumption.
+Qed.
+
+Lemma run_state_WFI : forall evs n n', WFI n -> run_state n evs = Ok n' ->
+  WFI n' /\ n_me n' = n_me n /\ n_opts n' = n_opts n.
+Proof.
+  induction evs as [|e r IH]; simpl; intros n n' W H.
+  - inversion H; subst. repeat split; [apply W|apply W].
+  - destruct (step n e) as [[n1 o1]|k] eqn:E; [|discriminate].
+    destruct (step_fixed _ _ _ _ W E) as [A B]. apply step_WFI in E; [|exact W].
+    destruct (IH _ _ E H) as [W' [A' B']]. split; [exact W'|]. split; congruence.
+Qed.
+
+Lemma run_state_app : forall evs1 evs2 n, run_state n (evs1 ++ evs2) =
+  match run_state n evs1 with Ok n1 => run_state n1 evs2 | Crash k => Crash k end.
+Proof.
+  induction evs1 as [|e r IH]; simpl; intros evs2 n; [reflexivity|].
+  destruct (step n e) as [[n1 o1]|k]; [apply IH|reflexivity].
+Qed.
+
+Lemma run_all_app : forall h evs1 evs2 n, run_all h n (evs1 ++ evs2) = true ->
+  run_all h n evs1 = true /\ forall n1, run_state n evs1 = Ok n1 -> run_all h n1 evs2 = true.
+Proof.
+  intros h. induction evs1 as [|e r IH]; simpl; intros evs2 n H.
+  - split; [reflexivity|]. intros n1 E. inversion E; subst. exact H.
+  - apply andb_prop in H. destruct H as [H1 H2]. rewrite H1. simpl.
+    destruct (step n e) as [[n1 o1]|k]; [apply IH; exact H2|]. split; [reflexivity|discriminate].
+Qed.
+
+(* ---------- ISOLATED is final; the local instance is never ISOLATED ---------- *)
+Lemma step_isolated : forall n e n' outs j, WFI n -> inst_state n j = Some ISOLATED ->
+  step n e = Ok (n', outs) -> inst_state n' j = Some ISOLATED.
+Proof.
+  intros n e n' outs j W I H. pose proof (step_LR _ _ _ _ W H) as [[A [B [C D]]] _].
+  apply inst_state_aget in I. destruct I as [s [Hs St]]. destruct (D _ _ Hs) as [s' [Hs' R]].
+  apply SR_isolated in R; try assumption.
+  - apply inst_state_aget. exists s'. split; [exact Hs'|apply R].
+  - intro E. destruct W as [_ NI]. apply NI. subst j. apply inst_state_aget. exists s. split; assumption.
+Qed.
+
+Theorem isolated_absorbing : forall n evs j, WFI n -> inst_state n j = Some ISOLATED ->
+  forall n', run_state n evs = Ok n' -> inst_state n' j = Some ISOLATED.
+Proof.
+  intros n evs. revert n. induction evs as [|e r IH]; simpl; intros n j W I n' H.
+  - inversion H; subst. exact I.
+  - destruct (step n e) as [[n1 o1]|k] eqn:E; [|discriminate].
+    eapply IH; [eapply step_WFI; eassumption| |exact H]. eapply step_isolated; eassumption.
+Qed.
+
+Theorem local_never_isolated : forall n evs n', WFI n -> run_state n evs = Ok n' ->
+  inst_state n' (n_me n) <> Some ISOLATED.
+Proof.
+  intros n evs n' W H. destruct (run_state_WFI _ _ _ W H) as [[_ NI] [A _]]. rewrite <- A. exact NI.
+Qed.
+
+(* ---------- C13 / C07 on whole histories ---------- *)
+Lemma walk_c13_cons : forall n0 pf pm pi e re o ro,
+  nspec_walk fl_c13 n0 pf pm pi (e :: re) (NOk o :: ro) =
+  c13_isolated_frozen pi (obs_ist o) (obs_outs o) && c13_auth (n_me n0) e pi (obs_ist o)
+  && nspec_walk fl_c13 n0 (obs_fsm o) (obs_master o) (obs_ist o) re ro.
+Proof. intros. simpl. rewrite !andb_true_r. reflexivity. Qed.
+
+Lemma walk_c07_cons : forall n0 pf pm pi e re o ro,
+  nspec_walk fl_c07 n0 pf pm pi (e :: re) (NOk o :: ro) =
+  c07_graph (n_me n0) pi (obs_ist o)
+  && c07_detection (n_me n0) (o_inactivity (n_opts n0)) (o_auto_fence (n_opts n0)) e pi (obs_ist o)
+  && nspec_walk fl_c07 n0 (obs_fsm o) (obs_master o) (obs_ist o) re ro.
+Proof. intros. simpl. rewrite !andb_true_r. reflexivity. Qed.
+
+Lemma walk_c13 : forall evs n n0 pf pm, WFI n -> n_me n0 = n_me n ->
+  nspec_walk fl_c13 n0 pf pm (init_ist n) evs (run n evs) = true.
+Proof.
+  induction evs as [|e r IH]; intros n n0 pf pm W A; [reflexivity|].
+  change (run n (e :: r)) with (match step n e with
+                                | Ok (n', outs) => NOk (observe n' outs) :: run n' r
+                                | Crash k => [NCrash k] end).
+  destruct (step n e) as [[n1 o1]|k] eqn:E; [|reflexivity].
+  rewrite walk_c13_cons, obs_ist_observe, obs_outs_observe. rewrite A.
+  rewrite (isolated_frozen _ _ _ _ W E), (auth_rules _ _ _ _ W E). simpl.
+  destruct (step_fixed _ _ _ _ W E) as [A1 _].
+  apply IH; [eapply step_WFI; eassumption|congruence].
+Qed.
+
+Lemma walk_c07 : forall evs n n0 pf pm, WFI n -> n_me n0 = n_me n -> n_opts n0 = n_opts n ->
+  run_all tick_sane n evs = true ->
+  nspec_walk fl_c07 n0 pf pm (init_ist n) evs (run n evs) = true.
+Proof.
+  induction evs as [|e r IH]; intros n n0 pf pm W A B H; [reflexivity|].
+  simpl in H. apply andb_prop in H. destruct H as [H1 H2].
+  change (run n (e :: r)) with (match step n e with
+                                | Ok (n', outs) => NOk (observe n' outs) :: run n' r
+                                | Crash k => [NCrash k] end).
+  destruct (step n e) as [[n1 o1]|k] eqn:E; [|reflexivity].
+  rewrite walk_c07_cons, obs_ist_observe. rewrite A, B.
+  rewrite (step_inst_graph _ _ _ _ W E), (detection _ _ _ _ W H1 E). simpl.
+  destruct (step_fixed _ _ _ _ W E) as [A1 B1].
+  apply IH; [eapply step_WFI; eassumption|congruence|congruence|exact H2].
+Qed.
+
+(* C13 (node level) on every history *)
+Theorem run_c13 : forall n evs, WFI n -> nspec_ok fl_c13 (n, evs, run n evs) = true.
+Proof. intros n evs W. unfold nspec_ok. apply walk_c13; [exact W|reflexivity]. Qed.
+
+(* C07 on every history, under the hypothesis that the local TICK counter never goes backwards *)
+Theorem run_c07 : forall n evs, WFI n -> run_all tick_sane n evs = true ->
+  nspec_ok fl_c07 (n, evs, run n evs) = true.
+Proof. intros n evs W H. unfold nspec_ok. apply walk_c07; try assumption; reflexivity. Qed.
+
+(* an event-only sufficient condition for the C07 hypothesis: no TICK claims to come from the local instance,
+   and the local counters are non-decreasing, starting above the stored one *)
+Fixpoint ticks_monotone (me last : Z) (evs : list event) : bool :=
+  match evs with
+  | [] => true
+  | LocalTick cnt _ _ :: r => (last <=? cnt) && ticks_monotone me cnt r
+  | PeerTick og _ _ :: r => negb (option_eqb Z.eqb (og_resolved og) (Some me)) && ticks_monotone me last r
+  | _ :: r => ticks_monotone me last r
+  end.
+
+(* ---------- the counters of an instance after one event ---------- *)
+Definition peer_tick_hits (n : node) (og : origin) (j : Z) : bool :=
+  match resolve n og with Some k => local_checked_or_running n && (j =? k) | None => false end.
+
+Lemma SR_counters : forall n e j s s', SR n e j s s' ->
+  match e with
+  | LocalTick cnt _ _ =>
+      is_remote_cnt s' = (if j =? n_me n then cnt else is_remote_cnt s) /\
+      is_local_cnt s' = lt_local_cnt (n_me n) j s cnt
+  | PeerTick og cnt _ =>
+      if peer_tick_hits n og j
+      then is_remote_cnt s' = cnt /\
+           is_local_cnt s' = (if cnt <? is_remote_cnt s then 0 else if local_cnt n <? 0 then cnt else local_cnt n)
+      else is_remote_cnt s' = is_remote_cnt s /\ is_local_cnt s' = is_local_cnt s
+  | _ => is_remote_cnt s' = is_remote_cnt s /\ is_local_cnt s' = is_local_cnt s
+  end.
+Proof.
+  intros n e j s s' H.
+  assert (RF : s' = s -> is_remote_cnt s' = is_remote_cnt s /\ is_local_cnt s' = is_local_cnt s)
+    by (intro E; subst; split; reflexivity).
+  assert (WS : forall st now, s' = with_state s st now ->
+               is_remote_cnt s' = is_remote_cnt s /\ is_local_cnt s' = is_local_cnt s)
+    by (intros st now E; subst; rewrite ws_remote, ws_local; split; reflexivity).
+  destruct e as [cnt now orcs|og cnt now|og st dg m insts now orcs|pl|og a ts now
+                |og info now|og now|strat forced now orcs|now orcs|now orcs|m now orcs];
+    try (split; apply H).
+  - apply SR_local_tick in H. destruct H as [_ H]. exact H.
+  - simpl in H. unfold peer_tick_hits. destruct (resolve n og) as [k|]; [|apply RF; exact H].
+    destruct (local_checked_or_running n && (j =? k)); [|apply RF; exact H].
+    subst s'. rewrite tick_remote, tick_local. split; reflexivity.
+  - apply RF. exact H.
+  - simpl in H. destruct (resolve n og) as [k|]; [|apply RF; exact H].
+    destruct ((j =? k) && is_checking s ts); [eapply WS; exact H|apply RF; exact H].
+  - simpl in H. destruct (resolve n og) as [k|]; [|apply RF; exact H].
+    destruct info; [apply RF; exact H|]. destruct (j =? k); [|apply RF; exact H].
+    destruct H as [H _]. eapply WS; exact H.
+  - simpl in H. destruct (resolve n og) as [k|]; [|apply RF; exact H].
+    destruct ((j =? k) && has_active_state (is_state s)); [eapply WS; exact H|apply RF; exact H].
+Qed.
+
+Lemma aget_None_keys {V} : forall k (l : alist V), aget k l = None <-> ~ In k (akeys l).
+Proof.
+  intros k l. induction l as [|[k' v] r IH]; simpl; [tauto|].
+  destruct (k =? k') eqn:E.
+  - apply Z.eqb_eq in E. subst. split; [discriminate|]. intro H. exfalso. apply H. left. reflexivity.
+  - apply Z.eqb_neq in E. rewrite IH. split; intro H; [intros [X|X]; [congruence|contradiction]|tauto].
+Qed.
+
+Lemma step_local_cnt : forall n e n' outs, WFI n -> step n e = Ok (n', outs) ->
+  local_cnt n' = match e with
+                 | LocalTick cnt _ _ => cnt
+                 | PeerTick og cnt _ => if peer_tick_hits n og (n_me n) then cnt else local_cnt n
+                 | _ => local_cnt n
+                 end.
+Proof.
+  intros n e n' outs W H. pose proof (step_LR _ _ _ _ W H) as [[A [B [C D]]] _].
+  unfold local_cnt. rewrite A.
+  destruct (aget (n_me n) (n_insts n)) as [s|] eqn:Hs.
+  - destruct (D _ _ Hs) as [s' [Hs' R]]. rewrite Hs'. apply SR_counters in R.
+    destruct e; try (destruct R as [R _]; exact R).
+    + rewrite Z.eqb_refl in R. destruct R as [R _]. exact R.
+    + destruct (peer_tick_hits n og (n_me n)); destruct R as [R _]; exact R.
+  - assert (N : aget (n_me n) (n_insts n') = None).
+    { apply aget_None_keys. rewrite C. apply aget_None_keys. exact Hs. }
+    rewrite N. destruct e; try reflexivity.
+    + simpl in H. rewrite Hs in H. discriminate.
+    + unfold peer_tick_hits. destruct (resolve n og) as [k|] eqn:R; [|reflexivity].
+      destruct (n_me n =? k) eqn:E; [|rewrite andb_false_r; reflexivity].
+      apply Z.eqb_eq in E. subst k. apply resolve_Some in R. destruct R as [_ [_ [s [X _]]]]. congruence.
+Qed.
+
+Lemma ticks_monotone_sane : forall evs n last, WFI n -> local_cnt n <= last ->
+  ticks_monotone (n_me n) last evs = true -> run_all tick_sane n evs = true.
+Proof.
+  induction evs as [|e r IH]; intros n last W L H; [reflexivity|].
+  simpl. assert (G : tick_sane n e = true /\
+                     forall n1 o1, step n e = Ok (n1, o1) -> run_all tick_sane n1 r = true).
+  { destruct e; simpl in H;
+      try (split; [reflexivity|]; intros n1 o1 E; pose proof (step_local_cnt _ _ _ _ W E) as LC;
+           destruct (step_fixed _ _ _ _ W E) as [A _];
+           apply (IH n1 last); [eapply step_WFI; eassumption|simpl in LC; lia|rewrite A; exact H]).
+    - apply andb_prop in H. destruct H as [H1 H2]. apply Z.leb_le in H1. split; [simpl; apply Z.leb_le; lia|].
+      intros n1 o1 E. pose proof (step_local_cnt _ _ _ _ W E) as LC. destruct (step_fixed _ _ _ _ W E) as [A _].
+      apply (IH n1 cnt); [eapply step_WFI; eassumption|simpl in LC; lia|rewrite A; exact H2].
+    - apply andb_prop in H. destruct H as [H1 H2]. split; [reflexivity|].
+      intros n1 o1 E. pose proof (step_local_cnt _ _ _ _ W E) as LC. destruct (step_fixed _ _ _ _ W E) as [A _].
+      apply (IH n1 last); [eapply step_WFI; eassumption| |rewrite A; exact H2].
+      simpl in LC. unfold peer_tick_hits in LC. destruct (resolve n og) as [k|] eqn:R; [|lia].
+      destruct (n_me n =? k) eqn:Ek; [|rewrite andb_false_r in LC; lia].
+      apply Z.eqb_eq in Ek. subst k. apply resolve_Some in R. destruct R as [R _]. rewrite R in H1.
+      simpl in H1. rewrite Z.eqb_refl in H1. discriminate. }
+  destruct G as [G1 G2]. rewrite G1. simpl. destruct (step n e) as [[n1 o1]|k] eqn:E; [|reflexivity].
+  eapply G2. reflexivity.
+Qed.
+
+Theorem run_c07_monotone : forall n evs last, WFI n -> local_cnt n <= last ->
+  ticks_monotone (n_me n) last evs = true -> nspec_ok fl_c07 (n, evs, run n evs) = true.
+Proof. intros n evs last W L H. apply run_c07; [exact W|]. eapply ticks_monotone_sane; eassumption. Qed.
+
+(* ====================================================================== *)
+(* B5. Accuracy in the property's own wording                              *)
+(* ====================================================================== *)
+
+(* what "peer j is alive" means at each event of the run:
+   (i) no XML-RPC failure is notified for it; (ii) at every local tick its last TICK is recent enough *)
+Definition live_hyp (j : Z) (n : node) (e : event) : bool :=
+  match e with
+  | LocalTick cnt _ _ =>
+      match aget j (n_insts n) with
+      | Some s => cnt - is_local_cnt s <=? o_inactivity (n_opts n)
+      | None => true
+      end
+  | InstFailure og _ => match resolve n og with Some k => negb (k =? j) | None => true end
+  | _ => true
+  end.
+
+Lemma live_step : forall n e n' outs j, WFI n -> j <> n_me n -> inst_state n j = Some IRUNNING ->
+  live_hyp j n e = true -> step n e = Ok (n', outs) -> inst_state n' j = Some IRUNNING.
+Proof.
+  intros n e n' outs j W NM RU LH H. pose proof (step_LR _ _ _ _ W H) as [[A [B [C D]]] _].
+  apply inst_state_aget in RU. destruct RU as [s [Hs St]]. destruct (D _ _ Hs) as [s' [Hs' R]].
+  apply inst_state_aget. exists s'. split; [exact Hs'|].
+  assert (TS : j = n_me n -> tick_sane n e = true) by (intro X; contradiction).
+  pose proof (SR_detect _ _ _ _ _ TS Hs R) as DB. unfold detect_body in DB.
+  apply andb_prop in DB. destruct DB as [DB _]. rewrite St in DB.
+  assert (FIN : negb (icode IRUNNING =? 3) || (icode (is_state s') =? 3) = true -> is_state s' = IRUNNING).
+  { rewrite !icode_is3. simpl. intro X. apply istate_eqb_eq. exact X. }
+  destruct e; try (apply FIN; exact DB).
+  - (* LocalTick *)
+    simpl in LH. rewrite Hs in LH. apply Z.leb_le in LH. apply Z.eqb_neq in NM. rewrite NM in DB.
+    assert (X : (o_inactivity (n_opts n) <? cnt - is_local_cnt s) = false) by (apply Z.ltb_ge; lia).
+    rewrite X, andb_false_r in DB. apply FIN. exact DB.
+  - (* InstFailure *)
+    simpl in LH.
+    destruct (og_addr_ok og) eqn:AO; [|rewrite orb_false_r in DB; apply FIN; exact DB].
+    destruct (og_resolved og) as [k|] eqn:OR; [|rewrite orb_false_r in DB; apply FIN; exact DB].
+    destruct (k =? j) eqn:Ek; [|rewrite orb_false_r in DB; apply FIN; exact DB].
+    apply Z.eqb_eq in Ek. subst k. rewrite (resolve_of _ _ _ _ OR AO Hs), St in LH. simpl in LH.
+    rewrite Z.eqb_refl in LH. discriminate.
+Qed.
+
+(* A peer seen RUNNING whose TICKs keep arriving and whose XML-RPCs succeed stays RUNNING after every event *)
+Theorem live_peer_never_lost : forall j evs n, WFI n -> j <> n_me n -> inst_state n j = Some IRUNNING ->
+  run_all (live_hyp j) n evs = true ->
+  forall evs1 evs2 n', evs = evs1 ++ evs2 -> run_state n evs1 = Ok n' -> inst_state n' j = Some IRUNNING.
+Proof.
+  intros j evs n W NM RU LH evs1 evs2 n' E H. subst evs. apply run_all_app in LH. destruct LH as [LH _].
+  clear evs2. revert n W NM RU LH H. induction evs1 as [|e r IH]; simpl; intros n W NM RU LH H.
+  - inversion H; subst. exact RU.
+  - apply andb_prop in LH. destruct LH as [L1 L2].
+    destruct (step n e) as [[n1 o1]|k] eqn:E; [|discriminate].
+    destruct (step_fixed _ _ _ _ W E) as [A _].
+    apply (IH n1); [eapply step_WFI; eassumption|congruence|eapply live_step; eassumption|exact L2|exact H].
+Qed.
+
+(* ====================================================================== *)
+(* B6. The window formulation                                              *)
+(* ====================================================================== *)
+
+(* A TICK of peer j taken into account while the local counter is c0 tags j with c0 — unless its own counter
+   went backwards (stealth restart: "has not restarted"), in which case the tag is reset to 0 *)
+Lemma peer_tick_tags : forall n og rc now n' o j s, WFI n -> step n (PeerTick og rc now) = Ok (n', o) ->
+  resolve n og = Some j -> local_checked_or_running n = true -> aget j (n_insts n) = Some s ->
+  exists s', aget j (n_insts n') = Some s' /\ is_remote_cnt s' = rc /\
+    is_local_cnt s' = (if rc <? is_remote_cnt s then 0 else if local_cnt n <? 0 then rc else local_cnt n).
+Proof.
+  intros n og rc now n' o j s W H R LC Hs. pose proof (step_LR _ _ _ _ W H) as [[A [B [C D]]] _].
+  destruct (D _ _ Hs) as [s' [Hs' X]]. exists s'. split; [exact Hs'|]. apply SR_counters in X.
+  unfold peer_tick_hits in X. rewrite R, LC, Z.eqb_refl in X. exact X.
+Qed.
+
+Corollary peer_tick_tags_live : forall n og rc now n' o j s, WFI n -> step n (PeerTick og rc now) = Ok (n', o) ->
+  resolve n og = Some j -> local_checked_or_running n = true -> aget j (n_insts n) = Some s ->
+  is_remote_cnt s <= rc -> 0 <= local_cnt n ->
+  exists s', aget j (n_insts n') = Some s' /\ is_local_cnt s' = local_cnt n.
+Proof.
+  intros n og rc now n' o j s W H R LC Hs NR NN.
+  destruct (peer_tick_tags _ _ _ _ _ _ _ _ W H R LC Hs) as [s' [Hs' [_ T]]]. exists s'. split; [exact Hs'|].
+  rewrite T. destruct (rc <? is_remote_cnt s) eqn:X; [apply Z.ltb_lt in X; lia|].
+  destruct (local_cnt n <? 0) eqn:Y; [apply Z.ltb_lt in Y; lia|reflexivity].
+Qed.
+
+Corollary stealth_restart_resets_tag : forall n og rc now n' o j s, WFI n -> step n (PeerTick og rc now) = Ok (n', o) ->
+  resolve n og = Some j -> local_checked_or_running n = true -> aget j (n_insts n) = Some s ->
+  rc < is_remote_cnt s ->
+  exists s', aget j (n_insts n') = Some s' /\ is_local_cnt s' = 0.
+Proof.
+  intros n og rc now n' o j s W H R LC Hs RS.
+  destruct (peer_tick_tags _ _ _ _ _ _ _ _ W H R LC Hs) as [s' [Hs' [_ T]]]. exists s'. split; [exact Hs'|].
+  rewrite T. apply Z.ltb_lt in RS. rewrite RS. reflexivity.
+Qed.
+
+(* the tag of a peer is only changed by its own TICKs *)
+Definition not_tick_of (j : Z) (e : event) : bool :=
+  match e with PeerTick og _ _ => negb (option_eqb Z.eqb (og_resolved og) (Some j)) | _ => true end.
+
+Lemma tag_stable_step : forall n e n' o j s, WFI n -> j <> n_me n -> not_tick_of j e = true ->
+  step n e = Ok (n', o) -> aget j (n_insts n) = Some s ->
+  exists s', aget j (n_insts n') = Some s' /\ is_local_cnt s' = is_local_cnt s.
+Proof.
+  intros n e n' o j s W NM NT H Hs. pose proof (step_LR _ _ _ _ W H) as [[A [B [C D]]] _].
+  destruct (D _ _ Hs) as [s' [Hs' X]]. exists s'. split; [exact Hs'|]. apply SR_counters in X.
+  destruct e; try (destruct X as [_ X]; exact X).
+  - destruct X as [_ X]. rewrite X. unfold lt_local_cnt. apply Z.eqb_neq in NM. rewrite NM. reflexivity.
+  - unfold peer_tick_hits in X. destruct (resolve n og) as [k|] eqn:R; [|destruct X as [_ X]; exact X].
+    destruct (j =? k) eqn:Ek; [|rewrite andb_false_r in X; destruct X as [_ X]; exact X].
+    apply Z.eqb_eq in Ek. subst k. apply resolve_Some in R. destruct R as [R _]. simpl in NT. rewrite R in NT.
+    simpl in NT. rewrite Z.eqb_refl in NT. discriminate.
+Qed.
+
+Lemma tag_stable : forall evs n n' j s, WFI n -> j <> n_me n -> forallb (not_tick_of j) evs = true ->
+  run_state n evs = Ok n' -> aget j (n_insts n) = Some s ->
+  exists s', aget j (n_insts n') = Some s' /\ is_local_cnt s' = is_local_cnt s.
+Proof.
+  induction evs as [|e r IH]; simpl; intros n n' j s W NM NT H Hs.
+  - inversion H; subst. exists s. split; [exact Hs|reflexivity].
+  - apply andb_prop in NT. destruct NT as [N1 N2].
+    destruct (step n e) as [[n1 o1]|k] eqn:E; [|discriminate].
+    destruct (tag_stable_step _ _ _ _ _ _ W NM N1 E Hs) as [s1 [Hs1 T1]].
+    destruct (step_fixed _ _ _ _ W E) as [A _].
+    destruct (IH n1 n' j s1) as [s' [Hs' T']]; try assumption; [eapply step_WFI; eassumption|congruence|].
+    exists s'. split; [exact Hs'|congruence].
+Qed.
+
+(* "at least one TICK from j within any inactivity_ticks consecutive local ticks": when the local tick numbered cnt
+   arrives, the last TICK of j was taken into account while the local counter c0 satisfied cnt - c0 <= inactivity
+   (it arrived after the local tick numbered cnt - inactivity). Then hypothesis (ii) of live_peer_never_lost holds
+   at that local tick, provided j has not restarted (its own counter did not go backwards). *)
+Theorem window_formulation : forall n j evs1 og rc now0 evs2 n1 n2 o1 n3 s1 cnt now orcs,
+  WFI n -> j <> n_me n ->
+  run_state n evs1 = Ok n1 ->
+  step n1 (PeerTick og rc now0) = Ok (n2, o1) -> resolve n1 og = Some j -> local_checked_or_running n1 = true ->
+  aget j (n_insts n1) = Some s1 -> is_remote_cnt s1 <= rc -> 0 <= local_cnt n1 ->
+  forallb (not_tick_of j) evs2 = true -> run_state n2 evs2 = Ok n3 ->
+  cnt - local_cnt n1 <= o_inactivity (n_opts n) ->
+  live_hyp j n3 (LocalTick cnt now orcs) = true.
+Proof.
+  intros n j evs1 og rc now0 evs2 n1 n2 o1 n3 s1 cnt now orcs W NM R1 ST RS LC Hs1 NR NN NT R2 WIN.
+  destruct (run_state_WFI _ _ _ W R1) as [W1 [A1 B1]].
+  destruct (peer_tick_tags_live _ _ _ _ _ _ _ _ W1 ST RS LC Hs1 NR NN) as [s2 [Hs2 T2]].
+  pose proof (step_WFI _ _ _ _ W1 ST) as W2. destruct (step_fixed _ _ _ _ W1 ST) as [A2 B2].
+  assert (NM2 : j <> n_me n2) by congruence.
+  destruct (tag_stable _ _ _ _ _ W2 NM2 NT R2 Hs2) as [s3 [Hs3 T3]].
+  destruct (run_state_WFI _ _ _ W2 R2) as [W3 [A3 B3]].
+  simpl. rewrite Hs3. apply Z.leb_le. rewrite B3, B2, B1. lia.
+Qed.
+
+(* ====================================================================== *)
+(* D. Examples (non-vacuity) and witnesses                                 *)
+(* ====================================================================== *)
+
+(* three instances 1 (local), 2, 3; inactivity_ticks = 2; TIMEOUT synchronisation (20 s); as emitted by
+   harness/drv_node.py (emit_node) *)
+Definition ex_opts (af : bool) : options := mkOpts 2 af false false true false false 20 FS_CONTINUE.
+Definition ex_own : smodes := mkSm OFF false 0 [(1, ISTOPPED); (2, ISTOPPED); (3, ISTOPPED)].
+Definition ex_node (af : bool) : node :=
+  mkNode 1 (ex_opts af) [] [1; 2; 3] [(1, 0); (2, 1); (3, 2)]
+         [(1, mkIst ISTOPPED 0 0 0); (2, mkIst ISTOPPED 0 0 0); (3, mkIst ISTOPPED 0 0 0)]
+         [(1, ex_own); (2, sm_fresh); (3, sm_fresh)] [] false 1000 [].
+Definition ex_og (j : Z) : origin := mkOrigin (Some j) true.
+Definition ex_orc : list oracle := [mkOr false false false 0].
+
+Definition after (n : node) (evs : list event) : node :=
+  match run_state n evs with Ok n' => n' | Crash _ => n end.
+
+(* the state code of instance j after each event of a run *)
+Definition states_of (j : Z) (obss : list obs) : list (option Z) :=
+  map (fun o => match o with NOk x => ist_state j (obs_ist x) | NCrash _ => None end) obss.
+Definition checks_of (obss : list obs) : list output :=
+  flat_map (fun o => match o with NOk x => filter is_check (obs_outs x) | NCrash _ => [] end) obss.
+
+Example ex_WFI : forall af, WFI (ex_node af).
+Proof. intro af. apply wfi_b_WFI. destruct af; vm_compute; reflexivity. Qed.
+
+(* the local instance starts, peer 2 is admitted (RUNNING at the local tick 3, tagged with the local counter 2),
+   publishes once, then falls silent: still RUNNING at the local tick 4 (4 - 2 <= 2), lost at the local tick 5 *)
+Definition ex_hist : list event :=
+  [ LocalTick 1 1005 ex_orc;
+    Auth (ex_og 1) A_AUTHORIZED 1006 1005;
+    LocalTick 2 1010 ex_orc;
+    PeerTick (ex_og 2) 7 1011;
+    Auth (ex_og 2) A_AUTHORIZED 1012 1011;
+    LocalTick 3 1025 ex_orc;
+    PeerState (ex_og 2) ELECTION false 0 [(1, IRUNNING); (2, IRUNNING); (3, ISTOPPED)] 1026 ex_orc;
+    LocalTick 4 1030 ex_orc;
+    LocalTick 5 1035 ex_orc;
+    LocalTick 6 1040 ex_orc ].
+
+(* auto_fence on (the local instance is Master in a working state): ISOLATED, and it stays so *)
+Example ex_lost_fenced :
+  states_of 2 (run (ex_node true) ex_hist)
+  = [Some 0; Some 0; Some 0; Some 1; Some 2; Some 3; Some 3; Some 3; Some 5; Some 5].
+Proof. vm_compute. reflexivity. Qed.
+
+(* auto_fence off: STOPPED *)
+Example ex_lost_unfenced :
+  states_of 2 (run (ex_node false) ex_hist)
+  = [Some 0; Some 0; Some 0; Some 1; Some 2; Some 3; Some 3; Some 3; Some 0; Some 0].
+Proof. vm_compute. reflexivity. Qed.
+
+Example ex_handshakes : checks_of (run (ex_node true) ex_hist) = [CheckInstance 1; CheckInstance 2].
+Proof. vm_compute. reflexivity. Qed.
+
+(* hypotheses of run_c07 / run_c07_monotone / run_c13 on this history *)
+Example ex_tick_sane : run_all tick_sane (ex_node true) ex_hist = true.
+Proof. vm_compute. reflexivity. Qed.
+Example ex_ticks_monotone : ticks_monotone 1 0 ex_hist = true.
+Proof. vm_compute. reflexivity. Qed.
+Example ex_c07 : nspec_ok fl_c07 (ex_node true, ex_hist, run (ex_node true) ex_hist) = true.
+Proof. apply run_c07; [apply ex_WFI|exact ex_tick_sane]. Qed.
+Example ex_c13 : nspec_ok fl_c13 (ex_node true, ex_hist, run (ex_node true) ex_hist) = true.
+Proof. apply run_c13. apply ex_WFI. Qed.
+
+(* hypotheses of live_peer_never_lost: peer 2 is RUNNING after 6 events and alive during the next two events;
+   the hypothesis fails exactly at the local tick 5 *)
+Example ex_live_start : inst_state (after (ex_node true) (firstn 6 ex_hist)) 2 = Some IRUNNING.
+Proof. vm_compute. reflexivity. Qed.
+Example ex_live_hyp : run_all (live_hyp 2) (after (ex_node true) (firstn 6 ex_hist)) (firstn 2 (skipn 6 ex_hist)) = true.
+Proof. vm_compute. reflexivity. Qed.
+Example ex_live_end : inst_state (after (ex_node true) (firstn 8 ex_hist)) 2 = Some IRUNNING.
+Proof.
+  eapply (live_peer_never_lost 2 (firstn 2 (skipn 6 ex_hist)) (after (ex_node true) (firstn 6 ex_hist)))
+    with (evs1 := firstn 2 (skipn 6 ex_hist)) (evs2 := []).
+  - assert (W : WFI (ex_node true)) by apply ex_WFI.
+    assert (R : run_state (ex_node true) (firstn 6 ex_hist) = Ok (after (ex_node true) (firstn 6 ex_hist)))
+      by (vm_compute; reflexivity).
+    apply (run_state_WFI _ _ _ W R).
+  - vm_compute. discriminate.
+  - exact ex_live_start.
+  - exact ex_live_hyp.
+  - reflexivity.
+  - vm_compute. reflexivity.
+Qed.
+Example ex_live_hyp_fails : live_hyp 2 (after (ex_node true) (firstn 8 ex_hist)) (LocalTick 5 1035 ex_orc) = false.
+Proof. vm_compute. reflexivity. Qed.
+
+(* window formulation: the last TICK of peer 2 was tagged 2 >= 4 - inactivity_ticks, so peer 2 is alive at the local tick 4 *)
+Example ex_window : live_hyp 2 (after (ex_node true) (firstn 7 ex_hist)) (LocalTick 4 1030 ex_orc) = true.
+Proof.
+  assert (W : WFI (ex_node true)) by apply ex_WFI.
+  eapply (window_formulation (ex_node true) 2 (firstn 3 ex_hist) (ex_og 2) 7 1011 (firstn 3 (skipn 4 ex_hist))
+                             (after (ex_node true) (firstn 3 ex_hist)) (after (ex_node true) (firstn 4 ex_hist))).
+  - exact W.
+  - vm_compute. discriminate.
+  - vm_compute. reflexivity.
+  - vm_compute. reflexivity.
+  - vm_compute. reflexivity.
+  - vm_compute. reflexivity.
+  - vm_compute. reflexivity.
+  - vm_compute. discriminate.
+  - vm_compute. discriminate.
+  - vm_compute. reflexivity.
+  - vm_compute. reflexivity.
+  - vm_compute. discriminate.
+Qed.
+
+(* the handshake with peer 3 answers NOT_AUTHORIZED: it is ISOLATED, and no later TICK, state publication,
+   handshake result, failure notice or local tick changes anything for it; no handshake is requested again *)
+Definition ex_iso_hist : list event :=
+  [ LocalTick 1 1005 ex_orc;
+    Auth (ex_og 1) A_AUTHORIZED 1006 1005;
+    LocalTick 2 1010 ex_orc;
+    PeerTick (ex_og 3) 4 1011;
+    Auth (ex_og 3) A_NOT_AUTHORIZED 1012 1011;
+    PeerTick (ex_og 3) 5 1013;
+    PeerState (ex_og 3) OPERATION false 3 [(1, IRUNNING); (3, IRUNNING)] 1013 ex_orc;
+    Auth (ex_og 3) A_AUTHORIZED 1014 1013;
+    AllInfo (ex_og 3) None 1014;
+    InstFailure (ex_og 3) 1014;
+    LocalTick 3 1025 ex_orc;
+    LocalTick 9 1055 ex_orc;
+    PeerTick (ex_og 3) 6 1056 ].
+
+Example ex_isolated :
+  map (fun o => match o with NOk x => ist_entry 3 (obs_ist x) | NCrash _ => None end) (skipn 4 (run (ex_node false) ex_iso_hist))
+  = repeat (Some (5, 4, 2, 1011)) 9.
+Proof. vm_compute. reflexivity. Qed.
+
+Example ex_isolated_handshakes : checks_of (run (ex_node false) ex_iso_hist) = [CheckInstance 1; CheckInstance 3].
+Proof. vm_compute. reflexivity. Qed.
+
+Example ex_isolated_absorbing : inst_state (after (ex_node false) ex_iso_hist) 3 = Some ISOLATED.
+Proof.
+  assert (W : WFI (ex_node false)) by apply ex_WFI.
+  assert (R5 : run_state (ex_node false) (firstn 5 ex_iso_hist) = Ok (after (ex_node false) (firstn 5 ex_iso_hist)))
+    by (vm_compute; reflexivity).
+  apply (isolated_absorbing (after (ex_node false) (firstn 5 ex_iso_hist)) (skipn 5 ex_iso_hist) 3).
+  - apply (run_state_WFI _ _ _ W R5).
+  - vm_compute. reflexivity.
+  - vm_compute. reflexivity.
+Qed.
+
+(* ---------- witnesses: why the hypothesis tick_sane of `detection` / `run_c07` cannot be dropped ---------- *)
+(* the local counter goes backwards (10 then 5): SupvisorsTimes.update takes it for a stealth restart, resets the
+   local tag to 0, the periodic check of the same tick finds 5 - 0 > inactivity_ticks and the local instance
+   declares ITSELF FAILED then STOPPED (STOPPED -> CHECKING -> FAILED -> STOPPED or RUNNING -> FAILED -> STOPPED
+   within one event). The checker c07_detection (which takes cj = cnt for the local instance) rejects it. *)
+Definition ex_back_hist : list event :=
+  [ LocalTick 1 1005 ex_orc;
+    Auth (ex_og 1) A_AUTHORIZED 1006 1005;
+    LocalTick 10 1010 ex_orc;
+    LocalTick 5 1015 ex_orc ].
+
+Example ex_back_states : states_of 1 (run (ex_node false) ex_back_hist) = [Some 1; Some 2; Some 3; Some 0].
+Proof. vm_compute. reflexivity. Qed.
+
+Theorem detection_needs_tick_sane : exists n e n' outs, WFI n /\ step n e = Ok (n', outs) /\
+  c07_detection (n_me n) (o_inactivity (n_opts n)) (o_auto_fence (n_opts n)) e (init_ist n) (init_ist n') = false.
+Proof.
+  exists (after (ex_node false) (firstn 3 ex_back_hist)), (LocalTick 5 1015 ex_orc).
+  destruct (step (after (ex_node false) (firstn 3 ex_back_hist)) (LocalTick 5 1015 ex_orc)) as [[n' outs]|k] eqn:E;
+    [|vm_compute in E; discriminate E].
+  exists n', outs. split; [|split; [reflexivity|]].
+  - assert (R : run_state (ex_node false) (firstn 3 ex_back_hist) = Ok (after (ex_node false) (firstn 3 ex_back_hist)))
+      by (vm_compute; reflexivity).
+    apply (run_state_WFI _ _ _ (ex_WFI false) R).
+  - vm_compute in E. inversion E; subst. vm_compute. reflexivity.
+Qed.
+
+Theorem run_c07_needs_tick_sane : exists n evs, WFI n /\ nspec_ok fl_c07 (n, evs, run n evs) = false.
+Proof. exists (ex_node false), ex_back_hist. split; [apply ex_WFI|vm_compute; reflexivity]. Qed.
